@@ -121,6 +121,11 @@ for pr in ("ux", "uxf"):
        tier="thorough", unwind=18, unwindset=["strcmp.0:34", "strncpy.0:42"], timeout=2400, desc="xcm_addr_is_valid agrees with the documented %s syntax" % pr)
 ob("addr.parse.ux.n110", "addr/addr.c", ["-DOP_PARSE_UX", '-DPROTO="ux"', "-DPFUN=xcm_addr_parse_ux", "-DNTAIL=110"], ["C12"],
    unwind=116, desc="xcm_addr_parse_ux on names up to 110 bytes (limit 107/108), every capacity 0..112")
+for pr in ("ux", "uxf"):
+    for L in (106, 107, 108):
+        ob("addr.valid.%s.len%d" % (pr, L), "addr/addr.c", ["-DOP_VALID_UXLEN", '-DUXNAME="%s"' % ("a" * L), '-DPROTO="%s"' % pr, "-DPFUN=xcm_addr_parse_" + pr], ["C12"],
+           unwind=124, unwindset=["strcmp.0:34"],
+           desc="xcm_addr_is_valid agrees with xcm_addr_parse_%s for a name of %d bytes (limit 107)" % (pr, L))
 ob("addr.make.uxf.n110", "addr/addr.c", ["-DOP_MAKE_UX", "-DNAMEMAX=110", '-DPROTO="uxf"', "-DPFUN=xcm_addr_parse_uxf", "-DMFUN=xcm_addr_make_uxf"], ["C12"],
    unwind=124, desc="xcm_addr_make_uxf with names up to 110 bytes, every capacity, round trip")
 ob("addr.proto.n8", "addr/addr.c", ["-DOP_PROTO", "-DNTAIL=8"], ["C12"], unwind=18, desc="xcm_addr_parse_proto on 8 arbitrary bytes, every capacity 0..10")
